@@ -117,6 +117,24 @@ def _cm_parts(fn):
     return fn.body, y
 
 
+def _bool_status_body(fn):
+    """a helper that reports a status: every return gives the constant True or False (anywhere in the body, not in a loop's else / finally),
+    no generator, no global declaration, plain parameters."""
+    if any(isinstance(n, (ast.Yield, ast.YieldFrom, ast.Await, ast.Global, ast.Nonlocal)) for n in ast.walk(fn)):
+        return False
+    a = fn.args
+    if a.vararg or a.kwarg or a.posonlyargs or a.kwonlyargs or any(not isinstance(d, ast.Constant) for d in a.defaults):
+        return False
+    rets = [n for n in _own_nodes(fn) if isinstance(n, ast.Return)]
+    if not rets or not all(isinstance(r.value, ast.Constant) and isinstance(r.value.value, bool) for r in rets):
+        return False
+    # no return inside a finally clause
+    for n in _own_nodes(fn):
+        if isinstance(n, ast.Try) and any(isinstance(x, ast.Return) for s in n.finalbody for x in ast.walk(s)):
+            return False
+    return isinstance(fn.body[-1], ast.Return)
+
+
 def _simple_body(fn):
     if any(isinstance(n, (ast.Yield, ast.YieldFrom, ast.Await, ast.Global, ast.Nonlocal)) for n in ast.walk(fn)):
         return False
@@ -153,7 +171,7 @@ def candidates(trees, sources):
                 if cm:
                     if _cm_parts(fn) is None:
                         continue
-                elif not _simple_body(fn):
+                elif not _simple_body(fn) and not _bool_status_body(fn):
                     continue
                 out[(path, cname, fn.name)] = fn
     return out
@@ -310,6 +328,8 @@ def _find_calls(owner, helper_name, is_method):
                     out.append((lst, i, val, "stmt"))
                 elif isinstance(s, ast.With) and len(s.items) == 1 and s.items[0].optional_vars is None and is_h(s.items[0].context_expr):
                     out.append((lst, i, s.items[0].context_expr, "with"))
+                elif isinstance(s, ast.If) and not s.orelse and (is_h(s.test) or (isinstance(s.test, ast.UnaryOp) and isinstance(s.test.op, ast.Not) and is_h(s.test.operand))):
+                    out.append((lst, i, s.test if is_h(s.test) else s.test.operand, "cond"))
                 if not isinstance(s, (ast.FunctionDef, ast.AsyncFunctionDef, ast.ClassDef)):
                     todo.append(s)
     return out
@@ -351,6 +371,71 @@ def _inline_with(caller, lst, i, call, helper, is_method, static):
     return subst(body) or [ast.copy_location(ast.Pass(), w)]
 
 
+def _inline_cond(caller, lst, i, call, helper, is_method, static):
+    """`if [not] h(args): A` where A ends in a jump and h reports a boolean status: h's body with every `return <the value that triggers A>`
+    replaced by A, and every `return <the other value>` -- which must be in tail position -- dropped (control falls through to what follows
+    the if statement)."""
+    st = lst[i]
+    if not _bool_status_body(helper) or not st.body:
+        return None
+    rest = []
+    negated = isinstance(st.test, ast.UnaryOp) and isinstance(st.test.op, ast.Not)
+    if not isinstance(st.body[-1], (ast.Return, ast.Continue, ast.Break, ast.Raise)):
+        # the canonical form of `if not h(): return` + rest at the tail of the caller: `if h(): rest`
+        if negated or lst is not caller.body or i != len(lst) - 1:
+            return None
+        rest = st.body
+        st = copy.copy(st)
+        st.test = ast.copy_location(ast.UnaryOp(op=ast.Not(), operand=st.test), st.test)
+        st.body = [ast.copy_location(ast.Return(value=None), st)]
+    trigger = not (isinstance(st.test, ast.UnaryOp) and isinstance(st.test.op, ast.Not))      # `if h():` is triggered by True
+    tails = set(id(r) for r in _tail_returns(helper.body))
+    for r in [n for n in _own_nodes(helper) if isinstance(n, ast.Return)]:
+        if r.value.value is not trigger and id(r) not in tails:
+            return None
+        # a `break` / `continue` in A would bind to a loop of the helper if the return sits inside one
+    if isinstance(st.body[-1], (ast.Continue, ast.Break)) and any(isinstance(n, (ast.For, ast.While)) for n in _own_nodes(helper)):
+        return None
+    # reuse the statement machinery for argument binding and renaming: inline as an expression statement, then patch the returns
+    marker_t, marker_f = "__inl_status_true__", "__inl_status_false__"
+    fake = copy.deepcopy(helper)
+    for r in [n for n in ast.walk(fake) if isinstance(n, ast.Return)]:
+        r.value = ast.copy_location(ast.Name(id=marker_t if r.value.value else marker_f, ctx=ast.Load()), r)
+    # (_simple_body would reject non-tail returns: bypass by converting returns into marker expression statements first)
+    class _R(ast.NodeTransformer):
+        def visit_Return(self, node):
+            return ast.copy_location(ast.Expr(value=node.value), node)
+
+        def visit_FunctionDef(self, node):
+            if node is fake:
+                self.generic_visit(node)
+            return node
+    _R().visit(fake)
+    fake_list = [ast.copy_location(ast.Expr(value=call), st)]
+    body = _inline_at(caller, fake_list, 0, call, fake, is_method, static)
+    if body is None:
+        return None
+
+    def patch(stmts):
+        out = []
+        for s in stmts:
+            if isinstance(s, ast.Expr) and isinstance(s.value, ast.Name) and s.value.id in (marker_t, marker_f):
+                if (s.value.id == marker_t) is trigger:
+                    out += copy.deepcopy(st.body)
+                # the other value: tail position, falls through
+                continue
+            for fld in ("body", "orelse", "finalbody"):
+                v = getattr(s, fld, None)
+                if isinstance(v, list) and v and isinstance(v[0], ast.stmt) and not isinstance(s, (ast.FunctionDef, ast.ClassDef)):
+                    nv = patch(v)
+                    setattr(s, fld, nv if nv or fld != "body" else [ast.copy_location(ast.Pass(), s)])
+            for h in getattr(s, "handlers", []) or []:
+                h.body = patch(h.body) or [ast.copy_location(ast.Pass(), s)]
+            out.append(s)
+        return out
+    return (patch(body) + list(rest)) or [ast.copy_location(ast.Pass(), st)]
+
+
 def inline(trees, sources, select=None):
     """Inline the selected candidates (all if select is None) in place; returns the list of (path, class, name) inlined."""
     done = []
@@ -379,8 +464,9 @@ def inline(trees, sources, select=None):
                     if is_method and not static and not (caller.args.args and call.func.value.id == caller.args.args[0].arg):
                         ok = False
                         break
-                    new = _inline_at(caller, lst, i, call, helper, is_method, static) if kind == "stmt" and "contextmanager" not in " ".join(decos) \
-                        else _inline_with(caller, lst, i, call, helper, is_method, static) if kind == "with" else None
+                    new = _inline_at(caller, lst, i, call, helper, is_method, static) if kind == "stmt" and "contextmanager" not in " ".join(decos) and _simple_body(helper) \
+                        else _inline_with(caller, lst, i, call, helper, is_method, static) if kind == "with" \
+                        else _inline_cond(caller, lst, i, call, helper, is_method, static) if kind == "cond" else None
                     if new is None:
                         ok = False
                         break
